@@ -2,6 +2,7 @@ package main
 
 import (
 	"fmt"
+	"strconv"
 	"go/token"
 	"go/types"
 	"sort"
@@ -528,6 +529,14 @@ func (fr *frame) applyContract(d *Decl, callee *ssa.Function, sig *types.Signatu
 			env.vars[fmt.Sprintf("a%d", i)] = sval{t: args[i], typ: argT[i]}
 		}
 	}
+	// let-bound names of the callee's contract (evaluated in the state before the call)
+	for _, c := range d.Get("let") {
+		if i := strings.Index(c.Text, "="); i >= 0 {
+			if le, err := ParseExpr(c.Text[i+1:]); err == nil {
+				env.vars[strings.TrimSpace(c.Text[:i])] = env.tr(le)
+			}
+		}
+	}
 	// preconditions (only for functions of the program under contract; externs' requires too)
 	for _, c := range d.Get("requires") {
 		f := env.trBool(c.E)
@@ -578,7 +587,30 @@ func (fr *frame) applyContract(d *Decl, callee *ssa.Function, sig *types.Signatu
 		fr.applyModifies(items, env, st, ctxFn)
 	}
 	// results
-	res := fr.freshResults(v, sig, st, g, hint, d.Kind == "func")
+	var res []string
+	if d.Has("pure") && d.Has("deterministic") {
+		// a pure function of its argument values: the same uninterpreted function the specs use
+		var sorts []string
+		for _, t := range argT {
+			sorts = append(sorts, vc.sortOf(t))
+		}
+		for i := 0; i < sig.Results().Len(); i++ {
+			rt := sig.Results().At(i).Type()
+			name := pureFnName(d.Name, i)
+			vc.declareFun(name, sorts, vc.sortOf(rt))
+			t := "(" + name + " " + strings.Join(args, " ") + ")"
+			if len(args) == 0 {
+				t = name
+			}
+			c := vc.define(vc.fresh(fr.prefix+hint+"#r"+fmt.Sprint(i)), vc.sortOf(rt), t)
+			for _, f := range fr.typeFacts(st, rt, c, d.Kind == "func") {
+				vc.assumeG(g, f)
+			}
+			res = append(res, c)
+		}
+	} else {
+		res = fr.freshResults(v, sig, st, g, hint, d.Kind == "func")
+	}
 	fr.setResult(v, res)
 	post := vc.newSpecEnv(ctxFn, st, pre)
 	post.declFile = d
@@ -632,7 +664,17 @@ func (fr *frame) atCallClauses(key string, st *State, g string, args []string, a
 			continue
 		}
 		target := strings.TrimSpace(txt[:i])
+		site := 0
+		if j := strings.LastIndex(target, "#"); j > 0 {
+			if n, err := strconv.Atoi(target[j+1:]); err == nil {
+				site = n
+				target = target[:j]
+			}
+		}
 		if target != key && "engine."+target != key && "prolog."+target != key && shortKey(key) != target && !strings.HasSuffix(key, "."+target) {
+			continue
+		}
+		if site > 0 && fr.sourceOrdinal(key, pos) != site {
 			continue
 		}
 		lab, body := splitLabel(strings.TrimSpace(txt[i+len(" requires"):]))
@@ -648,6 +690,49 @@ func (fr *frame) atCallClauses(key string, st *State, g string, args []string, a
 		root.atCallN++
 		vc.oblige("at-call", fmt.Sprintf("%s#%d:%s", shortKey(key), root.atCallN, lab), g, env.trBool(e), "at the call of "+key+": "+body, root.props, posOf(fr.fn, pos))
 	}
+}
+
+// sourceOrdinal: the 1-based rank, in source order, of the call at pos among the calls of the same callee in the
+// function whose frame this is
+func (fr *frame) sourceOrdinal(key string, pos token.Pos) int {
+	var ps []token.Pos
+	for _, b := range fr.fn.Blocks {
+		for _, in := range b.Instrs {
+			ci, ok := in.(ssa.CallInstruction)
+			if !ok {
+				continue
+			}
+			c := ci.Common()
+			k := ""
+			if callee := c.StaticCallee(); callee != nil {
+				k = fnKey(callee)
+				if callee.Pkg != nil && callee.Pkg.Pkg.Path() != enginePath && callee.Pkg.Pkg.Path() != rootPath {
+					k = externKey(callee)
+				}
+			} else if c.IsInvoke() {
+				k = ifaceMethodKey(c.Value.Type(), c.Method.Name())
+			} else if b, ok := c.Value.(*ssa.Builtin); ok {
+				k = b.Name()
+			}
+			if k == key {
+				ps = append(ps, c.Pos())
+			}
+		}
+	}
+	sort.Slice(ps, func(i, j int) bool { return ps[i] < ps[j] })
+	for i, p := range ps {
+		if p == pos {
+			return i + 1
+		}
+	}
+	return 0
+}
+
+func pureFnName(declName string, i int) string {
+	if i == 0 {
+		return "|pure_" + declName + "|"
+	}
+	return fmt.Sprintf("|pure_%s#%d|", declName, i)
 }
 
 func shortKey(k string) string {
